@@ -250,7 +250,46 @@ func Diff(a, b Dump, max int) []string {
 			}
 		}
 		sort.Strings(keys)
+		// pair rows that share their first token (the key column) and show only differing tokens
+		first := func(r string) string {
+			if i := strings.IndexByte(r, ' '); i > 0 {
+				return r[:i]
+			}
+			return r
+		}
+		minus, plus := map[string]string{}, map[string]string{}
 		for _, r := range keys {
+			if am[r] > bm[r] {
+				minus[first(r)] = r
+			} else {
+				plus[first(r)] = r
+			}
+		}
+		paired := map[string]bool{}
+		for k, mr := range minus {
+			pr, ok := plus[k]
+			if !ok {
+				continue
+			}
+			mt, pt := strings.Split(mr, " "), strings.Split(pr, " ")
+			if len(mt) != len(pt) {
+				continue
+			}
+			var d []string
+			for i := range mt {
+				if mt[i] != pt[i] {
+					d = append(d, clip(mt[i])+" -> "+clip(pt[i]))
+				}
+			}
+			if len(out) < max {
+				out = append(out, fmt.Sprintf("~ %s: %s: %s", n, clip(k), strings.Join(d, "; ")))
+			}
+			paired[mr], paired[pr] = true, true
+		}
+		for _, r := range keys {
+			if paired[r] {
+				continue
+			}
 			if len(out) >= max {
 				return append(out, "...")
 			}
@@ -265,8 +304,8 @@ func Diff(a, b Dump, max int) []string {
 }
 
 func clip(s string) string {
-	if len(s) > 400 {
-		return s[:400] + "…"
+	if len(s) > 300 {
+		return s[:300] + "…"
 	}
 	return s
 }
